@@ -22,9 +22,25 @@ type pageStream struct {
 	seed  uint64
 	next  int
 	cur   []byte
+	// sparse: only the pages around the interesting offsets (start, lock page, 4 GiB, end) carry content, the rest is zero
+	sparse bool
+	zero   []byte
+}
+
+func (s *pageStream) interesting(p int) bool {
+	lock := int(lfs.LockPgno(s.ps))
+	four := int((int64(1)<<32)/int64(s.ps)) + 1 // the first page at a byte offset of 2^32
+	near := func(x int) bool { return p >= x-2 && p <= x+2 }
+	return p <= 3 || near(lock) || near(four) || p >= s.n-1
 }
 
 func (s *pageStream) page(p int) []byte {
+	if s.sparse && !s.interesting(p) {
+		if s.zero == nil {
+			s.zero = make([]byte, s.ps)
+		}
+		return s.zero
+	}
 	pg := lfs.MakePage(s.ps, uint32(p), s.seed+uint64(p), uint32(s.n), false)
 	if p == 1 {
 		binary.BigEndian.PutUint32(pg[24:], 0)
@@ -49,6 +65,14 @@ func (s *pageStream) Read(b []byte) (int, error) {
 // lockPageImport: an image that extends past SQLite's lock page (the page holding byte offset 1 GiB). The lock page is
 // skipped by every reader and writer; all other pages, on both sides of it, come back from export exactly as imported.
 func lockPageImport(c *common.Ctx, r *common.Rand) error {
+	if err := bigImport(c, r, int(lfs.LockPgno(65536))+2, false, "lock-page"); err != nil {
+		return err
+	}
+	// ... and past 4 GiB (page offsets that do not fit 32 bits), mostly zero pages
+	return bigImport(c, r, 65536+3, true, "past-4GiB")
+}
+
+func bigImport(c *common.Ctx, r *common.Rand, n int, sparse bool, what string) error {
 	dir, err := os.MkdirTemp(c.OutDir, "c16l-")
 	if err != nil {
 		return err
@@ -65,12 +89,11 @@ func lockPageImport(c *common.Ctx, r *common.Rand) error {
 	}
 	const ps = 65536
 	lock := int(lfs.LockPgno(ps))
-	n := lock + 2
 	seed := r.U64()
 	rep := map[string]any{"kind": "import-lock-page", "page_size": ps, "pages": n, "lock_page": lock}
 	c.Evaluations++
-	c.Distinct("import:lock-page")
-	if err := lfshttp.NewClient().Import(bg, p.Server.URL(), "big", &pageStream{ps: ps, n: n, seed: seed}); err != nil {
+	c.Distinct("import:" + what)
+	if err := lfshttp.NewClient().Import(bg, p.Server.URL(), "big", &pageStream{ps: ps, n: n, seed: seed, sparse: sparse}); err != nil {
 		c.Violate("C16:lock-page:import", fmt.Sprintf("import of a %d-page image with %d-byte pages (lock page %d) failed: %v", n, ps, lock, err), rep)
 		return nil
 	}
@@ -84,7 +107,7 @@ func lockPageImport(c *common.Ctx, r *common.Rand) error {
 		return nil
 	}
 	defer rc.Close()
-	want := &pageStream{ps: ps, n: n, seed: seed}
+	want := &pageStream{ps: ps, n: n, seed: seed, sparse: sparse}
 	buf := make([]byte, ps)
 	for pg := 1; pg <= n; pg++ {
 		if _, err := io.ReadFull(rc, buf); err != nil {
@@ -95,7 +118,7 @@ func lockPageImport(c *common.Ctx, r *common.Rand) error {
 			continue // never read by SQLite
 		}
 		if !bytes.Equal(buf, want.page(pg)) {
-			c.Violate("C16:lock-page:differs", fmt.Sprintf("exported page %d differs from the imported one (lock page is %d, %d pages)", pg, lock, n), rep)
+			c.Violate("C16:lock-page:differs", fmt.Sprintf("exported page %d (byte offset %d) differs from the imported one (lock page is %d, %d pages of %d bytes)", pg, int64(pg-1)*ps, lock, n, ps), rep)
 			return nil
 		}
 	}
